@@ -155,6 +155,46 @@ def tlc(module, cfgtext, run, workers=8, timeout=1800, env_extra=None, xss="1g",
     return res
 
 
+def tlc_collect(module, cfgtext, run, prefix, workers=8, timeout=1800):
+    """Like tlc(), but collects the JSON payload of printed lines starting with `prefix`."""
+    os.makedirs(os.path.join(WORK, "tlc"), exist_ok=True)
+    cfgpath = os.path.join(WORK, "tlc", run + ".cfg")
+    open(cfgpath, "w").write(cfgtext)
+    meta = os.path.join(WORK, "tlc", run + ".md")
+    shutil.rmtree(meta, ignore_errors=True)
+    env = dict(os.environ)
+    env.pop("JAVA_TOOL_OPTIONS", None)
+    cmd = ["timeout", str(timeout), "java", "-Xss1g", "-Xmx12g", "-XX:+UseParallelGC", "-DTLA-Library=" + SPEC,
+           "-cp", TLA_CP, "tlc2.TLC", "-workers", str(workers), "-metadir", meta, "-cleanup",
+           "-noGenerateSpecTE", "-config", cfgpath, os.path.join(SPEC, module + ".tla")]
+    path = os.path.join(WORK, "tlc", run + ".lines")
+    res = dict(cmd=" ".join(cmd), lines_path=path, n_lines=0, generated=0, distinct=0, ok=False, errors=[], log=[])
+    t0 = time.time()
+    q = '"' + prefix
+    with open(path, "w") as vf:
+        p = subprocess.Popen(cmd, stdout=subprocess.PIPE, stderr=subprocess.STDOUT, text=True, env=env, cwd=SPEC)
+        for line in p.stdout:
+            if line.startswith(q):
+                vf.write(json.loads(line)[len(prefix):] + "\n")
+                res["n_lines"] += 1
+            else:
+                line = line.rstrip("\n")
+                if line.startswith(("Picked up", "Parsing file", "Semantic processing", "Linting of")):
+                    continue
+                res["log"].append(line)
+                m = TLC_STATS.search(line)
+                if m:
+                    res["generated"], res["distinct"] = int(m.group(1)), int(m.group(2))
+                if line.startswith("Error:") or "Exception" in line:
+                    res["errors"].append(line)
+        rc = p.wait()
+    res["wall"] = time.time() - t0
+    shutil.rmtree(meta, ignore_errors=True)
+    done = any("Model checking completed. No error has been found" in l for l in res["log"])
+    res["ok"] = (rc == 0 and done and not res["errors"])
+    return res
+
+
 def scenario_cfg(cfg, cases, invariants, max_exchanges=1, extra_constants="", spec="Spec"):
     return ("SPECIFICATION %s\nCONSTANTS\n    F = %s\n    Cases <- %s\n    MaxExchanges = %d\n    GenOutcomes = {}\n%s"
             "INVARIANTS %s\nCHECK_DEADLOCK FALSE\n") % (
